@@ -1,6 +1,7 @@
 //! C07 — Prometheus output reports exactly what was recorded, each sample once.
 
 use std::{
+    time::Duration,
     collections::{BTreeMap, HashMap},
     sync::Mutex,
 };
@@ -54,6 +55,8 @@ enum Step {
     Describe(usize, String),
     Render,
     Upkeep,
+    /// advance the mock clock (index into ADVANCES, scaled by the configured summary window)
+    Advance(usize),
 }
 
 #[derive(Debug, Clone)]
@@ -61,6 +64,9 @@ struct Config {
     buckets: Option<Vec<f64>>,
     full_override: Option<usize>, // key index that gets a Matcher::Full override
     globals: Vec<(String, String)>,
+    /// summary window: (bucket duration in ns, bucket count); None = the builder's default (20 s x 3)
+    window: Option<(u64, u32)>,
+    quantiles: Option<Vec<f64>>,
 }
 
 #[derive(Debug)]
@@ -102,7 +108,7 @@ fn dec_cfg_keys(src: &mut Source) -> (Config, Vec<KeySpec>) {
         }
     }
     let full_override = if buckets.is_none() && src.chance(80) { Some(src.below(nk)) } else { None };
-    (Config { buckets, full_override, globals }, keys)
+    (Config { buckets, full_override, globals, window: None, quantiles: None }, keys)
 }
 
 fn dec_value(src: &mut Source) -> f64 {
@@ -137,7 +143,13 @@ fn decode(src: &mut Source) -> Case {
                 },
                 5 => Step::Describe(k, src.small_string(&LVAL_PARTS, 4)),
                 6 | 7 => Step::Render,
-                8 => Step::Upkeep,
+                8 => {
+                    if src.chance(110) {
+                        Step::Advance(src.below(6))
+                    } else {
+                        Step::Upkeep
+                    }
+                }
                 _ => {
                     if src.chance(60) {
                         Step::RecMany(k, src.f64_dyadic(), 60 + src.below(140))
@@ -148,6 +160,13 @@ fn decode(src: &mut Source) -> Case {
             }
         })
         .collect();
+    let mut cfg = cfg;
+    if src.chance(150) {
+        cfg.window = Some((*src.pick(&[1u64, 1_000_000, 50_000_000, 1_000_000_000]), 1 + src.below(3) as u32));
+    }
+    if src.chance(60) {
+        cfg.quantiles = Some(vec![0.0, 0.5, 1.0][..1 + src.below(3)].to_vec());
+    }
     Case { cfg, keys, steps }
 }
 
@@ -161,6 +180,12 @@ fn build(cfg: &Config, keys: &[KeySpec]) -> metrics_exporter_prometheus::Prometh
     }
     for (k, v) in &cfg.globals {
         b = b.add_global_label(k.clone(), v.clone());
+    }
+    if let Some((d, n)) = cfg.window {
+        b = b.set_bucket_duration(Duration::from_nanos(d)).unwrap().set_bucket_count(std::num::NonZeroU32::new(n).unwrap());
+    }
+    if let Some(q) = &cfg.quantiles {
+        b = b.set_quantiles(q).unwrap();
     }
     b.build_recorder()
 }
@@ -304,6 +329,13 @@ pub fn case_seq(bytes: &[u8], _s: &[u8], ctx: &mut Ctx) -> Result<(), Fail> {
     let mut case = decode(&mut src);
     case.steps.push(Step::Render);
     ctx.case(&case);
+    // the exporter's time (sample timestamps, summary windows) is a mock clock advanced only by the history
+    let (clock, mock) = quanta::Clock::mock();
+    mock.increment(Duration::from_secs(3600));
+    quanta::with_clock(&clock, || run_history(&case, &mock, ctx))
+}
+
+fn run_history(case: &Case, mock: &quanta::Mock, ctx: &mut Ctx) -> Result<(), Fail> {
     let rec = build(&case.cfg, &case.keys);
     let handle = rec.handle();
     let mut models: Vec<Model> = vec![Model::default(); case.keys.len()];
@@ -385,6 +417,15 @@ pub fn case_seq(bytes: &[u8], _s: &[u8], ctx: &mut Ctx) -> Result<(), Fail> {
                     }
                 }
                 last_render = None;
+            }
+            Step::Advance(i) => {
+                let (d, n) = case.cfg.window.unwrap_or((20_000_000_000, 3));
+                let w = d.saturating_mul(n as u64);
+                let ns = [1, d / 2 + 1, d, w, w + 1, w.saturating_mul(10)][*i];
+                mock.increment(Duration::from_nanos(ns));
+                if ns > w && models.iter().zip(case.keys.iter()).any(|(m, k)| k.kind == 'h' && !m.samples.is_empty()) {
+                    ctx.nontrivial("clock-advanced-past-the-summary-window-after-samples");
+                }
             }
             Step::Upkeep => {
                 handle.run_upkeep();
